@@ -22,13 +22,15 @@ class MatchResult:
         }
 
 class InwardRange:
-    __slots__ = ('start', 'end', 'delimiter', 'first_child')
+    __slots__ = ('start', 'end', 'delimiter', 'first_child', 'body_end')
 
     def __init__(self, start: int, end: int, delimiter: int):
         self.start = start
         self.end = end
         self.delimiter = delimiter
         self.first_child = None
+        self.body_end = end
+        "End of inner content: where block’s closing brace or property value ends"
 
 
 def match(source: str, pos: int) -> MatchResult:
@@ -138,6 +140,7 @@ def balanced_inward(source: str, pos: int) -> list:
             r.start = start
             r.end = end
             r.delimiter = delimiter
+            r.body_end = end
             return r
 
         return InwardRange(start, end, delimiter)
@@ -179,7 +182,7 @@ def balanced_inward(source: str, pos: int) -> list:
                 while r.first_child:
                     child = r.first_child
 
-                    inner = inner_range(source, child.delimiter + 1, child.end - 1)
+                    inner = inner_range(source, child.delimiter + 1, child.body_end)
                     push(result, (child.start, child.end))
                     if inner:
                         push(result, inner)
@@ -191,6 +194,7 @@ def balanced_inward(source: str, pos: int) -> list:
                 if parent and not parent.first_child:
                     # No first child in parent node: store current selector
                     r.end = end
+                    r.body_end = start
                     parent.first_child = r
                 else:
                     release(r)
@@ -213,7 +217,9 @@ def balanced_inward(source: str, pos: int) -> list:
                 if parent and parent.first_child and parent.first_child.start == p.start:
                     # First child is an expected property name, update its range
                     # to include property value
-                    parent.first_child.end = delimiter + 1 if delimiter != -1 else end
+                    # (a value closed by `}` has no terminator of its own)
+                    parent.first_child.end = prop_end
+                    parent.first_child.body_end = end
 
                 release_pending()
         else:
